@@ -715,7 +715,13 @@ static void DecodeDATA_TI34x(Word Code) {
         OK = True;
         forallargs(pArg, OK) if (OK) {
             EvalStrExpression(pArg, &t);
-            switch (t.Typ) {
+            if (SetMaxCodeLen(
+                        (CodeLen + ((t.Typ == TempString) ? t.Contents.str.len / 4 + 2 : 1))
+                        * 4)) {
+                WrError(ErrNum_CodeOverflow);
+                OK = False;
+            } else
+                switch (t.Typ) {
             case TempInt:
             ToInt:
 #ifdef HAS64
